@@ -37,6 +37,8 @@ type Ctx struct {
 
 	LoadSeconds float64
 	funcsByObj  map[*types.Func]*ssa.Function
+	// ModPrefix is the import-path prefix of the analysed module
+	ModPrefix string
 }
 
 // Packager is one implementation of nfpm.Packager, discovered by type.
@@ -55,6 +57,16 @@ func fatalf(format string, a ...any) {
 }
 
 func loadProgram(repo, tier string) (*Ctx, error) {
+	return loadModule(repo, tier, modPath, "./...", true)
+}
+
+// loadFixture loads the positive-example package that lives next to the
+// analyzer's sources (DESIGN §4.2).
+func loadFixture(verifDir string) (*Ctx, error) {
+	return loadModule(filepath.Join(verifDir, "analyzer"), "quick", "verif/analyzer/fixture", "./fixture", false)
+}
+
+func loadModule(repo, tier, prefix, pattern string, packagers bool) (*Ctx, error) {
 	start := time.Now()
 	mode := packages.NeedName | packages.NeedFiles | packages.NeedCompiledGoFiles |
 		packages.NeedImports | packages.NeedTypes | packages.NeedTypesSizes |
@@ -71,14 +83,18 @@ func loadProgram(repo, tier string) (*Ctx, error) {
 		}
 		env = append(env, kv)
 	}
-	env = append(env, "GOFLAGS=-mod=readonly", "GOWORK=off", "GOPROXY=off", "GOSUMDB=off", "GOTOOLCHAIN=local")
+	modFlag := "-mod=readonly"
+	if !packagers {
+		modFlag = "-mod=mod"
+	}
+	env = append(env, "GOFLAGS="+modFlag, "GOWORK=off", "GOPROXY=off", "GOSUMDB=off", "GOTOOLCHAIN=local")
 	cfg := &packages.Config{
 		Mode:  mode,
 		Dir:   repo,
 		Env:   env,
 		Tests: false,
 	}
-	initial, err := packages.Load(cfg, "./...")
+	initial, err := packages.Load(cfg, pattern)
 	if err != nil {
 		return nil, fmt.Errorf("load %s: %w", repo, err)
 	}
@@ -110,10 +126,11 @@ func loadProgram(repo, tier string) (*Ctx, error) {
 		SSAPkgs:    map[string]*ssa.Package{},
 		AllPkgs:    map[string]*packages.Package{},
 		funcsByObj: map[*types.Func]*ssa.Function{},
+		ModPrefix:  prefix,
 	}
 	packages.Visit(initial, nil, func(p *packages.Package) { c.AllPkgs[p.PkgPath] = p })
 	for _, p := range initial {
-		if p.PkgPath != modPath && !strings.HasPrefix(p.PkgPath, modPath+"/") {
+		if p.PkgPath != prefix && !strings.HasPrefix(p.PkgPath, prefix+"/") {
 			continue
 		}
 		c.Pkgs[p.PkgPath] = p
@@ -124,7 +141,7 @@ func loadProgram(repo, tier string) (*Ctx, error) {
 		c.SSAPkgs[p.PkgPath] = sp
 	}
 	if len(c.Pkgs) == 0 {
-		return nil, fmt.Errorf("no package of module %s found under %s", modPath, repo)
+		return nil, fmt.Errorf("no package of module %s found under %s", prefix, repo)
 	}
 	// collect module functions
 	all := ssautil.AllFunctions(prog)
@@ -148,8 +165,10 @@ func loadProgram(repo, tier string) (*Ctx, error) {
 			c.funcsByObj[o] = fn
 		}
 	}
-	if err := c.resolvePackagers(); err != nil {
-		return nil, err
+	if packagers {
+		if err := c.resolvePackagers(); err != nil {
+			return nil, err
+		}
 	}
 	c.LoadSeconds = time.Since(start).Seconds()
 	return c, nil
@@ -173,7 +192,7 @@ func (c *Ctx) isModuleFunc(fn *ssa.Function) bool {
 		return false
 	}
 	pp := p.Pkg.Path()
-	return pp == modPath || strings.HasPrefix(pp, modPath+"/")
+	return pp == c.ModPrefix || strings.HasPrefix(pp, c.ModPrefix+"/")
 }
 
 func (c *Ctx) funcPkgPath(fn *ssa.Function) string {
